@@ -2,7 +2,7 @@
 # MANIFEST.setup_cmd — offline build of the framework from files on disk only.
 set -e
 cd "$(dirname "$0")"
-export GOFLAGS=-mod=mod GOPROXY=off GOSUMDB=off GOTOOLCHAIN=local
+export GOFLAGS=-mod=mod GOPROXY=off GOSUMDB=off GOTOOLCHAIN=local DBUS_SESSION_BUS_ADDRESS=${DBUS_SESSION_BUS_ADDRESS:-unix:path=/nonexistent/verif-no-dbus}
 mkdir -p build evidence replays
 # translator (regenerates lean/TeleportModel/Generated from /repo)
 if [ -d tools/gofacts ]; then
